@@ -538,7 +538,7 @@ def r5(idx, rep):
                     handlers={"self._find_in_dir_names": find_names, "os.path.exists": lambda i, c, r, a, k: True,
                               "os.listdir": lambda i, c, r, a, k: ["2026-01-02_03-04-05", "2026-01-02_03-04-06"],
                               "os.path.basename": lambda i, c, r, a, k: (a[0].rpartition("/")[2] if isinstance(a[0], str) else Residual("basename"))})
-        ps = it.run_all(ff, args={"filename": "A/p", "instance": inst})
+        ps = it.run_all(ff, args={"filename": "A/p", "instance": inst}, store={"self._csvpaths._run_time_str": None, "self.csvpaths._run_time_str": None})
         p = ps[0]
         for q in ps:
             for cc in q.calls("_find_in_dir_names"):
@@ -559,3 +559,26 @@ def r5(idx, rep):
             if p.result != ("return", "PICK") or got != (want_prefix, want_last):
                 bad = bad or f"_find_instance({inst!r}) → {p.result}, resolver called with {got}; documented prefix {want_prefix!r}, last={want_last}"
     rep.check(bad is None, "R5", f"{ff.file}::ResultsManager._find_instance table", bad or "", K.where(ff, ff.node))
+    # a run that refers to its own group (a replay: `$p.results.<prefix>:last.<id>` as the file of a run of p) means the most recent *earlier*
+    # run: its own run directory exists already (start_run made it) but holds nothing yet
+    bad = None
+    for running, want_seen in (("A/p/2026-01-02_03-04-06", ["2026-01-02_03-04-05"]), ("A/q/2026-01-02_03-04-06", ["2026-01-02_03-04-05", "2026-01-02_03-04-06"])):
+        seen = []
+
+        def find_names2(i, c, r, a, k):
+            vals = list(a) + [k.get(x) for x in ("instance", "names", "last") if x in k]
+            seen.append(list(vals[1]))
+            return "PICK"
+
+        it = Interp(idx, types={"self": "ResultsManager"}, unknown_calls="residual",
+                    inline={"ResultsManager._find_last", "ResultsManager._find_first", "ResultsManager._find"},
+                    handlers={"self._find_in_dir_names": find_names2, "os.path.exists": lambda i, c, r, a, k: True,
+                              "os.listdir": lambda i, c, r, a, k: ["2026-01-02_03-04-05", "2026-01-02_03-04-06"],
+                              "os.path.basename": lambda i, c, r, a, k: a[0].rpartition("/")[2], "os.path.dirname": lambda i, c, r, a, k: a[0].rpartition("/")[0],
+                              "os.path.normpath": lambda i, c, r, a, k: a[0].rstrip("/"), "os.path.join": lambda i, c, r, a, k: "/".join(a),
+                              "os.path.abspath": lambda i, c, r, a, k: a[0].rstrip("/"), "os.path.samefile": lambda i, c, r, a, k: a[0].rstrip("/") == a[1].rstrip("/")})
+        ps = it.run_all(ff, args={"filename": "A/p", "instance": "2026-01-02_:last"}, store={"self._csvpaths._run_time_str": running, "self.csvpaths._run_time_str": running})
+        if len(ps) != 1 or ps[0].result != ("return", "PICK") or seen != [want_seen]:
+            bad = bad or (f"a run in progress in {running!r} resolves `2026-01-02_:last` in A/p against the listing {seen} ({[q.result for q in ps][:2]}); documented {want_seen}: "
+                          "the run's own, still empty directory is not a run it can refer to (a replay of the group's last run would read nothing)")
+    rep.check(bad is None, "R5", f"{ff.file}::ResultsManager._find_instance leaves out the run in progress", bad or "2 rows", K.where(ff, ff.node))
